@@ -358,7 +358,7 @@ func serveScenario(nconn int, kind string, stopBy string) *mc.Scenario {
 
 func basePlans(tier string) []mc.Plan {
 	var ps []mc.Plan
-	wnames := []string{"idle", "unary", "sstream", "bidi", "running", "parked", "badmeta", "cleancancel-then-running"}
+	wnames := []string{"idle", "unary", "sstream", "bidi", "running", "parked", "badmeta", "baddecode", "cleancancel-then-running"}
 	cfgs := []wl.Config{{Pipe: tr.Options{Cap: -1}}, {Soft: true, Pipe: tr.Options{Cap: -1}}, {Pipe: tr.Options{Cap: -1}, Inactivity: true}}
 	if tier == "thorough" {
 		wnames = append(wnames, "cstream", "unary2")
